@@ -6,7 +6,15 @@ open C20_proplist
 open Conv
 
 (* single switch between the two correspondences *)
-let fixed : bool = (try Sys.getenv "C20_PROPLIST_FIXED" = "1" with Not_found -> false)
+(* default_fixed: false = the function as it is in the tree (crashes when every entry matches),
+   true = the repaired function; set it to true once the fix: commit is in /repo.
+   The environment variable C20_PROPLIST_FIXED=0/1 overrides it for experiments. *)
+let default_fixed : bool = false
+let fixed : bool =
+  match Sys.getenv_opt "C20_PROPLIST_FIXED" with
+  | Some "1" -> true
+  | Some "0" -> false
+  | _ -> default_fixed
 
 let bool_of_tok s = (s = "1")
 
